@@ -5,6 +5,7 @@ import SonicModel.Lemmas.GetRefine
 import SonicModel.Lemmas.SpecBound
 import SonicModel.Lemmas.BlockProof
 import SonicModel.Lemmas.ScanGrammar
+import SonicModel.Lemmas.StrSkipGrammar
 namespace Sonic.Thm.C10
 open Sonic Gen Impl Spec
 
@@ -122,5 +123,45 @@ theorem unchecked_skip_finds_the_matching_bracket (left right : UInt8) (hk : Spe
 /-- non-vacuity: `"a}\"{" : [ { } ] } tail` after `{` — the brace inside the string and the escaped quote do not count -/
 example : Spec.skipContainerScalar 123 125 [34, 97, 125, 92, 34, 123, 34, 58, 91, 123, 125, 93, 125, 32, 125] = some 13 := by
   decide
+
+/-! ### the unchecked lookups skip strings 32 bytes at a time -/
+
+/-- **`skip_string_unchecked` (strings skipped by `get_unchecked`, `get_many_unchecked`, the unchecked iterators and
+    the children of owned lazy values) is the scalar string scan**: for every text after an opening quote — well-formed
+    or not — the block algorithm (32 bytes at a time; the escape mask is computed only when a backslash stands before
+    the first quote of the block or the previous block ended in an unescaped backslash; then a byte loop over the last
+    fewer than 32 bytes) consumes exactly the bytes up to and including the first quote that is not escaped, reports
+    end-of-input exactly when there is none, and reports "has escapes" exactly when the consumed text contains a backslash -/
+theorem unchecked_string_skip_is_scalar_scan (data : List UInt8) :
+    StrSkip.skipString (data.length / 32 + 1) data 0#32 0 false = Spec.skipStringScalar data :=
+  StrSkip.skipString_eq_scalar data
+
+/-- **on a well-formed string the unchecked skipper is right**: if a string of the RFC 8259 grammar starts at `i`
+    (opening quote) and ends at `e`, then `skip_string_unchecked`, started just after the opening quote on the rest of
+    the buffer — whatever follows — consumes exactly the bytes up to and including the closing quote, and its status says
+    whether the literal contains a backslash (i.e. whether its content has to be unescaped) -/
+theorem unchecked_string_skip_finds_the_closing_quote (buf : Buf) (f i e : Nat) (hopen : buf[i]? = some 34)
+    (h : Spec.value false f buf i = .ok e) :
+    StrSkip.skipString ((buf.toList.drop (i + 1)).length / 32 + 1) (buf.toList.drop (i + 1)) 0#32 0 false =
+      some (e - (i + 1), ((buf.toList.drop (i + 1)).take (e - (i + 1))).any (· == 92)) := by
+  rw [StrSkip.skipString_eq_scalar]
+  cases f with
+  | zero => simp [Spec.value] at h
+  | succ f =>
+    have hs : Spec.stringG buf (i + 1) = some e := by
+      simp only [Spec.value, hopen] at h
+      have h1 : ((34 : UInt8) == 45 || isDigit 34) = false := by decide
+      simp only [h1, Bool.false_eq_true, if_false, beq_self_eq_true, if_true, Spec.string] at h
+      cases hg : Spec.stringG buf (i + 1) with
+      | none => rw [hg] at h; simp [Res.ofOpt] at h
+      | some e' => rw [hg] at h; simp [Res.ofOpt] at h; rw [h]
+    unfold Spec.skipStringScalar
+    rw [StrSkip.stringG_strScan buf _ (i + 1) e rfl hs]
+    rfl
+
+/-- non-vacuity: `a\"b\\" tail` after the opening quote: 7 bytes, has escapes; `ab"`: 3 bytes, none; unterminated: none -/
+example : Spec.skipStringScalar [97, 92, 34, 98, 92, 92, 34, 32, 34] = some (7, true) := by decide
+example : Spec.skipStringScalar [97, 98, 34, 92] = some (3, false) := by decide
+example : Spec.skipStringScalar [97, 92, 34] = none := by decide
 
 end Sonic.Thm.C10
